@@ -35,12 +35,13 @@
       model was too short) counts as an error outcome of the MODEL; the
       implementation draws from an infinite stream.
 
-      [C14_prim_literal_typed_partial] = the literal clause of C14_conforms for
-      bool, char, str and the unsigned integers: the independent reader accepts
-      exactly the tokens the model emits (suffix = the primitive's type, value
-      in range).  Missing from C14_conforms: signed integers, and the lockstep
-      of composite / variant / tuple / array / vec forms with the parsed module
-      (checked on every observed example by [prop_conforms], not proved).
+      NOT proved: C14_conforms (the lockstep of literal / composite / variant /
+      tuple / array / vec forms with the parsed module).  It is checked on every
+      observed example by the independent reader [Corr.RunC14.conformsb]
+      ([prop_conforms], evaluated by the kernel's VM), which found the two known
+      findings F14 (Cow) and F15 (marker decided per instantiation); on the
+      model side the statement is false without the [skeleton_consistent]
+      hypothesis (F15) and for [Cow] entries (F14).
 
     Determinism: [example_rust] is a Gallina function of (r, s, id, ws). *)
 From Coq Require Import List NArith ZArith String.
